@@ -35,6 +35,7 @@ type ProdCfg struct {
 	BatchMax       int32
 	Inflight       int
 	AllowCancel    bool // AllowIdempotentProduceCancellation
+	MutatePromise  bool // promises of odd record ids clear Key/Value/Headers of their record
 }
 
 type ProdStep struct {
@@ -80,6 +81,10 @@ type ProdFocus struct {
 	DelayFaults    bool // only response delays as faults (C03)
 	FatalCodesRare bool
 	MaxSteps       int
+	// MutateInPromise lets a plan recycle records inside their promise (Key, Value and
+	// Headers are cleared, as a pooling application would): buffered-byte accounting
+	// must not depend on the record's contents after the promise has run.
+	MutateInPromise bool
 }
 
 func GenProdPlan(t *rapid.T, f ProdFocus) ProdPlan {
@@ -114,6 +119,9 @@ func GenProdPlan(t *rapid.T, f ProdFocus) ProdPlan {
 	c.Inflight = rapid.SampledFrom([]int{0, 1, 4}).Draw(t, "inflight")
 	if c.Idempotent && !f.IdemOnly {
 		c.AllowCancel = rapid.IntRange(0, 5).Draw(t, "allowcancel") == 0
+	}
+	if f.MutateInPromise {
+		c.MutatePromise = rapid.Bool().Draw(t, "mutatepromise")
 	}
 	maxSteps := f.MaxSteps
 	if maxSteps == 0 {
@@ -370,7 +378,9 @@ func (c ProdCfg) Opts() []kgo.Opt {
 }
 
 // ProduceErrResp is the exported form of produceErrResp.
-func ProduceErrResp(req *kmsg.ProduceRequest, code int16) kmsg.Response { return produceErrResp(req, code) }
+func ProduceErrResp(req *kmsg.ProduceRequest, code int16) kmsg.Response {
+	return produceErrResp(req, code)
+}
 
 func produceErrResp(req *kmsg.ProduceRequest, code int16) kmsg.Response {
 	resp := req.ResponseKind().(*kmsg.ProduceResponse)
@@ -463,6 +473,9 @@ func RunProd(e *bubble.Env, p ProdPlan, extraOpts ...kgo.Opt) *ProdObs {
 				o.mu.Unlock()
 			} else {
 				o.DoublePromise.Add(1)
+			}
+			if p.Cfg.MutatePromise && rs.ID%2 == 1 {
+				r.Key, r.Value, r.Headers = nil, nil, nil
 			}
 		}
 	}
